@@ -5,7 +5,7 @@ PROP = {
     "rule": ("streams of 1-200 access-log records (1-400 for the production-threshold unit): methods GET/POST/DELETE, URLs from 1-4 templates "
              "over hosts api.com/svc.io/x.api.com with constant segments and id slots, single records and bursts of consecutive ids long enough to "
              "cross maxSplitThreshold (2,3,5 and the plugin's real 50) at one to three depths, id values colliding with constant names, trailing "
-             "slashes, (in one case of 25) doubled slashes, statuses, durations 0..1e6, ms time stamps with duplicates and same-second values, consumer tags incl. empty, well- and "
+             "slashes, (in one case of 25) doubled slashes, statuses, durations 0..1e6 (and, in one case of four, a provider outage: most records carry HAProxy's duration -1 of an unanswered transaction), ms time stamps with duplicates and same-second values, consumer tags incl. empty, well- and "
              "ill-formed interceptor strings, internal flags; known-endpoint lists with declared parameters / literals / a wildcard; two random "
              "partitions into batches (empty batches allowed) and optional restarts (new State reading the JSON file, tree rebuilt from the known "
              "endpoints) at any boundary. Each case is run four ways through the exported API in the order runner.go uses it: single batch, two "
